@@ -27,6 +27,10 @@ func init() {
 				}
 				checkThreadedState(p, r, "R15j", es, 2)
 			}},
+			{ID: "R15m", Statement: "a table a method rebuilds starts empty", Run: func(p *Program, r *Report) {
+				r.Rule("R15m", "REBUILT-TABLE-STARTS-EMPTY: a method that allocates a table of its receiver (a slice of slices) and fills its rows by append allocates it on every path that fills (the TTL table of the schedule generator is rebuilt on every generation)")
+				checkRebuiltTableStartsEmpty(p, r, "R15m", 1)
+			}},
 			{ID: "R15l", Statement: "every root a block empties is marked", Run: func(p *Program, r *Report) {
 				r.Rule("R15l", "MARK-EVERY-EMPTIED-ROOT: the outermost loop around the store that marks a tracked root as emptied is left only through its own bound (a block can empty several trees)")
 				checkMarkEveryEmptiedRoot(p, r, "R15l", "delRootInfo")
